@@ -20,6 +20,7 @@ import re
 # Layer 1: expressions.  A tree is (text, depth, row).
 
 N_LEAVES = ['u', 'v']
+N_LITERALS = ['0', '0.1']
 I_LEAVES = ['0', '1', '2']
 B_LEAVES = ['True', 'False']
 L_LEAVES = ['us']
@@ -72,6 +73,27 @@ def n_depth1():
     for a in N_LEAVES:
         out.append((f'fp.fst(({a}, v))', 'fst'))
         out.append((f'fp.snd((u, {a}))', 'snd'))
+    return out
+
+
+def literal_depth1():
+    """depth-1 trees with an exact literal as one operand (a number that has no floating-point
+    representation of its own inside the implementation); not used as children of depth-2 trees"""
+    out = []
+    for lit in N_LITERALS:
+        for a in N_LEAVES:
+            for op in ARITH:
+                out.append((f'{a} {op} {lit}', op))
+                out.append((f'{lit} {op} {a}', op))
+            for f in ('min', 'max'):
+                out.append((f'{f}({a}, {lit})', f + '/2'))
+                out.append((f'{f}({lit}, {a})', f + '/2'))
+                out.append((f'{f}([{a}, {lit}])', f + '/list'))
+                out.append((f'{f}([{lit}, {a}])', f + '/list'))
+            out.append((f'fp.fma({a}, {lit}, {lit})', 'fma'))
+            for op in CMPS:
+                out.append((f'{a} {op} {lit}', 'cmp' + op))
+                out.append((f'{lit} {op} {a}', 'cmp' + op))
     return out
 
 
@@ -140,7 +162,7 @@ def expressions(level: int):
         return []
 
     # depth <= 1 trees themselves
-    for t, row in n_depth1() + b_depth1() + l_depth1():
+    for t, row in n_depth1() + b_depth1() + l_depth1() + literal_depth1():
         yield from emit(row, t)
     yield from emit('leaf', 'u')
     yield from emit('leaf', 'us')
@@ -238,8 +260,10 @@ def expressions(level: int):
     for lit in ['0.1', '1e-1', '0.1000000000000000055511151231257827', '1e23', '3.5e0', '0x10', '1_0',
                 'fp.rational(1, 3)', 'fp.rational(-2, 7)', 'fp.digits(3, -2, 2)', 'fp.digits(-5, 1, 10)',
                 "fp.hexfloat('0x1.8p1')", "fp.hexfloat('-0x1.01p-3')", '-0.0', '-0', '-3', '1e400', '1e-400']:
+        # (an integer spelled with an exponent beyond 2^53 is a class of its own: see C06)
+        row = 'literal/integer-valued-float' if lit == '1e23' else 'literal'
         for ctxt in ['{0}', '{0} + u', 'u * {0}', 'fp.round({0})', '[{0}, u]', '{0} < u']:
-            yield from emit('literal', ctxt.format(lit))
+            yield from emit(row, ctxt.format(lit))
 
 
 # ---------------------------------------------------------------------------
@@ -251,13 +275,16 @@ UNARY_COMPOUND = ['if1', 'for', 'while', 'with', 'withas']
 N_POOL = ['1 / 3', 'a + b', 'a * u', 'u / 3', 'b - a / 3', 'xs[0]', 'sum(xs)', 'fp.round(a)', 'max(a, v)',
           'len(xs) / 3', 'ys[1] * b', 'fp.fma(a, b, 0.1)', 'sum([t / 3 for t in ys])', 'a / 3 if a < b else b / 3']
 NX_POOL = ['a + x', 'x / 3']                      # additionally inside for bodies
-B_POOL = ['a < b', 'u <= 1', 'not fp.isnan(a)', 'a == b or b < 1', 'len(xs) > 1', 'True', '0 < a / 3 <= 1']
+B_POOL = ['a < b', 'u <= 1', 'not fp.isnan(a)', 'a == b or b < 1', 'len(xs) > 1', 'True', '0 < a / 3 <= 1',
+          '0 < h2(ys) < 9']
 L_POOL = [('x', 'xs'), ('x', 'range(2)'), ('x', 'ys[1:]'), ('x', '[a, 1 / 3]'), ('(i, x)', 'enumerate(xs)'),
           ('(x, y)', 'zip(xs, xs[:])')]
 I_POOL = ['0', '1', 'len(ys) - 1']
 C_POOL = ['fp.REAL', 'C0', 'fp.MPFixedContext(-2, fp.RM.RTZ)', 'fp.MPFloatContext((1 / 3) * 9 - 1, fp.RM.RAZ)',
           'fp.IEEEContext(3, len(ys) + 4, fp.RM.RNE)']
 ALIAS_POOL = ['ys = xs', 'ys = xs[:]', 'xs = ys', 'ys = [t for t in xs]']
+# indexed assignment: plainly, through a row of a list of lists (rows are shared), read-modify-write
+IDX_POOL = ['ys[{i}] = {n}', 'zs = [ys, xs]\nzs[0][{i}] = {n}', 'ys[{i}] = ys[{i}] + {n}']
 AUG_POOL = ['+=', '-=', '*=', '/=']
 TUPLE_POOL = ['a, b = b, {n}', '(a, (b, t)) = ({n}, (a, b))', 'b, a = (a + b, {n})']
 
@@ -391,7 +418,7 @@ class _Render:
     def pick(self, kind: str, pool):
         j = self.cnt.get(kind, 0)
         self.cnt[kind] = j + 1
-        stride = {'n': 7, 'b': 3, 'l': 5, 'i': 2, 'c': 3, 'alias': 1, 'aug': 3, 'tuple': 2}[kind]
+        stride = {'n': 7, 'b': 3, 'l': 5, 'i': 2, 'c': 3, 'alias': 1, 'aug': 3, 'tuple': 2, 'idx': 1}[kind]
         return pool[(self.p * stride + j * (stride + 4) + self.rot * (stride + 1) + j * j) % len(pool)]
 
     def num(self, in_for: bool):
@@ -411,7 +438,9 @@ class _Render:
             elif k == 'alias':
                 self.lines.append(pad + self.pick('alias', ALIAS_POOL))
             elif k == 'idx':
-                self.lines.append(f'{pad}ys[{self.pick("i", I_POOL)}] = {self.num(in_for)}')
+                form = self.pick('idx', IDX_POOL)
+                for line in form.format(i=self.pick('i', I_POOL), n=self.num(in_for)).split('\n'):
+                    self.lines.append(pad + line)
             elif k == 'call0':
                 self.lines.append(f'{pad}a = h0({self.num(in_for)})')
             elif k == 'call1':
